@@ -345,7 +345,11 @@ def check(prop, tier):
     os.makedirs(rundir, exist_ok=True)
     keep = os.path.join(RUN, "replays")
     # builds
-    variants = sorted({ln["variant"] for ln in plan["jobs"]})
+    # development aid of tools/mutsweep.py (scratch repositories only, never honoured for /repo): restrict the jobs to some
+    # build variants / dispatch configurations so that hundreds of mutants can be tried; floors are then not enforced
+    only_v = set(filter(None, os.environ.get("VERIF_ONLY_VARIANTS", "").split(","))) if ALT else set()
+    only_c = set(filter(None, os.environ.get("VERIF_ONLY_CONFIGS", "").split(","))) if ALT else set()
+    variants = sorted({ln["variant"] for ln in plan["jobs"] if (not only_v or ln["variant"] in only_v) and (not only_c or set(ln["configs"]) & only_c)})
     with cf.ThreadPoolExecutor(max_workers=2) as ex:
         built = list(ex.map(lambda v: build(prop, v), variants))
     if any(b is None for b in built):
@@ -361,6 +365,8 @@ def check(prop, tier):
         for cfg in ln["configs"]:
             for s in range(shards):
                 jobs.append(Job(prop, ln, cfg, s, shards, tier, seed, rundir))
+    if only_v or only_c:
+        jobs = [j for j in jobs if (not only_v or j.variant in only_v) and (not only_c or j.config in only_c)]
     if os.environ.get("VERIF_ONLY_FUZZ") == "1":
         jobs = []   # development aid for testing the fuzzing stage alone; never set by a registered command (floors then fail the run)
     # coverage-guided fuzzing stage (driver/gofuzz.py): the engine proposes failing inputs, each becomes one more job
@@ -482,7 +488,7 @@ def check(prop, tier):
     for ln in plan["jobs"]:
         if ln.get("thorough_only") and tier == "quick":
             continue
-        if per_wl.get(ln["wl"], 0) < ln.get("floor", 1):
+        if per_wl.get(ln["wl"], 0) < ln.get("floor", 1) and not (only_v or only_c):
             harness_errors.append("workload %s executed %d cases, floor %d" % (ln["wl"], per_wl.get(ln["wl"], 0), ln.get("floor", 1)))
 
     # dedupe violations for printing: by (workload, kind, first 80 chars of msg stripped of digits)
